@@ -125,16 +125,19 @@ class Exec:
         self.cnt += 1
         return '%s!%d' % (base, self.cnt)
 
-    def mk_solver(self, timeout=None, seed=None):
+    def mk_solver(self, timeout=None, seed=None, rlimit=None):
         s = z3.Solver()
         s.set('timeout', timeout or self.timeout_ms)
         s.set('random_seed', self.seed if seed is None else seed)
+        if rlimit:
+            # deterministic resource limit (wall-clock limits made path pruning / simplification timing dependent)
+            s.set('rlimit', rlimit)
         return s
 
     def feasible(self, cond):
         """False only when hyps /\\ cond is certainly unsatisfiable"""
         # pruning uses the quantifier-free hypotheses only (fewer hypotheses: never prunes a feasible path)
-        s = self.mk_solver(400)
+        s = self.mk_solver(5000, rlimit=300000)
         for h in self.hyps:
             if not _has_quant(h):
                 s.add(h)
@@ -468,7 +471,7 @@ class Exec:
         if z3.is_int_value(v):
             return lo <= v.as_long() <= hi
         self.flush_div()
-        s = self.mk_solver(150)
+        s = self.mk_solver(5000, rlimit=100000)
         for h in self.hyps:
             if not _has_quant(h):
                 s.add(h)
